@@ -37,6 +37,13 @@ def specStep (N : Nat) (sz : Nat → Nat) (P : Nat → Col) : Op → (Nat → Co
 def PoolWF (p : Pool) : Prop := ∀ (i : Nat) (c : GLWE), p.objs[i]? = some (Obj.ct c) → GWF p.N c
 def PoolSmall (p : Pool) : Prop := ∀ (i : Nat) (c : GLWE), p.objs[i]? = some (Obj.ct c) → GSmall c
 
+theorem checkS_ok {α} {need avail : Nat} {k : Outcome α} {x : α} (h : checkS need avail k = .ok x) :
+    need ≤ avail ∧ k = .ok x := by
+  unfold checkS at h
+  split at h
+  · exact ⟨by assumption, h⟩
+  · cases h
+
 theorem check_ok {α} {c : Bool} {k : Outcome α} {x : α} (h : check c k = .ok x) : c = true ∧ k = .ok x := by
   unfold check at h
   split at h
@@ -234,6 +241,8 @@ theorem step_phase {p p' : Pool} {op : Op} (hp : PoolWF p) (hs : PoolSmall p) (h
       simp only [specStep, phaseAt_of g2, sizeAt_of g1, ph s])
   case rotateAssign k r =>
     obtain ⟨res, x, g1, h4, rfl⟩ := un_inv h
+    unfold glweRotateAssignS at h4
+    obtain ⟨_, h4⟩ := checkS_ok h4
     obtain ⟨r', e, _, w, sz, ph⟩ := rotateAssign_ok k (hp r _ g1) (hs r _ g1)
     exact finish_step hp g1 h4 e w sz (fun s i => by simp only [specStep, phaseAt_of g1, ph s])
   case mulXpMinusOne k r a =>
@@ -247,6 +256,9 @@ theorem step_phase {p p' : Pool} {op : Op} (hp : PoolWF p) (hs : PoolSmall p) (h
       simp only [specStep, phaseAt_of g2, sizeAt_of g1, ph s])
   case mulXpMinusOneAssign k r =>
     obtain ⟨res, x, g1, h4, rfl⟩ := un_inv h
+    unfold glweMulXpMinusOneAssignS at h4
+    obtain ⟨_, h4⟩ := check_ok h4
+    obtain ⟨_, h4⟩ := checkS_ok h4
     obtain ⟨r', e, _, w, sz, ph⟩ := mulXpMinusOneAssign_ok k (hp r _ g1) (hs r _ g1)
     exact finish_step hp g1 h4 e w sz (fun s i => by simp only [specStep, phaseAt_of g1, ph s])
 
